@@ -174,7 +174,29 @@ def role_view(func, roles):
   return rv
 
 
-def inline_helpers(repo, func, depth=2):
+# Repository functions the rules themselves refer to (anchors of rules): calls
+# to them are kept as calls.  Any other helper - in particular one introduced
+# by extracting a block - is inlined before a rule looks at its caller.
+RULE_ANCHORS = frozenset("""
+_D_constraint _D_objective __call__ __init__ _auto_select_init
+_check_n_components _check_preprocessor _check_sdp_from_eigen
+_chunk_mean_centering _comparison_loss _components_from_basis_weights
+_compute_dist_diff _eigh _fD _fD1 _find_impostors _fit _fit_diag _fit_full
+_generate_bases_LDA _gradient _initialize_basis _initialize_basis_supervised
+_initialize_components _initialize_metric_mahalanobis _inv_sqrtm _loss
+_loss_grad _loss_grad_lbfgs _pairs _prepare_inputs _pseudo_inverse_from_eig
+_total_loss _validate_calibration_params calibrate_threshold check_input
+check_input_classic check_input_tuples check_tuple_size
+check_y_valid_values_for_pairs chunks components_from_metric
+decision_function fit generate_knntriplets get_mahalanobis_matrix get_metric
+make_error_input pair_distance pair_score positive_negative_pairs predict
+preprocess_points preprocess_tuples score score_pairs set_threshold transform
+validate_vector vector_norm wrap_pairs _check_dimension _select_targets
+_generate_bases_dist_diff _to_index_points check_collapsed_pairs
+""".split())
+
+
+def inline_helpers(repo, func, depth=2, keep=RULE_ANCHORS):
   """`func` with statement-level calls to simple repository helpers replaced
   by the helper's body, so that a rule sees the same statements whether or
   not a block was extracted into a private function.
@@ -225,6 +247,8 @@ def inline_helpers(repo, func, depth=2):
   def expand(call, target):
     """statements replacing `target = call` (target may be None / 'return')"""
     g = callee_of(call)
+    if g is not None and g.name in keep:
+      return None
     if g is None or g.node is base.node or call.keywords or \
             any(isinstance(x, ast.Starred) for x in call.args):
       return None
@@ -242,8 +266,23 @@ def inline_helpers(repo, func, depth=2):
     pre = []
     stored = set(n.id for n in ast.walk(g.node) if isinstance(n, ast.Name)
                  and isinstance(n.ctx, ast.Store))
+    # a parameter that the helper only updates in place (`p += ...`,
+    # `p[...] = ...`) stands for the caller's object
+    rebound = set()
+    for n in ast.walk(g.node):
+      if isinstance(n, ast.Assign):
+        for t_ in n.targets:
+          for x in ast.walk(t_):
+            if isinstance(x, ast.Name) and isinstance(x.ctx, ast.Store):
+              rebound.add(x.id)
+      elif isinstance(n, (ast.For, ast.With, ast.NamedExpr, ast.AnnAssign,
+                          ast.comprehension)):
+        tg_ = getattr(n, 'target', None)
+        for x in (ast.walk(tg_) if tg_ is not None else []):
+          if isinstance(x, ast.Name):
+            rebound.add(x.id)
     for p, a in zip(params, call.args):
-      if isinstance(a, ast.Name) and p not in stored:
+      if isinstance(a, ast.Name) and (p not in stored or p not in rebound):
         mapping[p] = a.id
       else:
         mapping[p] = p + sfx
@@ -301,7 +340,7 @@ def inline_helpers(repo, func, depth=2):
   I().visit(node)
   out = _clone_func(func, node)
   if counter[0]:
-    return inline_helpers(repo, out, depth - 1)
+    return inline_helpers(repo, out, depth - 1, keep)
   return out
 
 
@@ -477,3 +516,32 @@ def assign_pairs(stmt):
     else:
       out.append((ast.unparse(t), stmt.value))
   return out
+
+
+def unfold(expr, body, before, stop=()):
+  """`expr` with every Name replaced (recursively) by the value last assigned
+  to it by a plain `name = value` statement of `body` that precedes the
+  statement `before` (names in `stop` and names never assigned there stay).
+  Temporaries therefore do not matter when the result is compared."""
+  import copy
+  idx = body.index(before) if before in body else len(body)
+  defs = {}
+  for s in body[:idx]:
+    if isinstance(s, ast.Assign) and len(s.targets) == 1 and \
+            isinstance(s.targets[0], ast.Name):
+      defs[s.targets[0].id] = (s.value, s)
+    elif isinstance(s, (ast.AugAssign,)) and isinstance(s.target, ast.Name):
+      defs.pop(s.target.id, None)
+
+  def go(e, depth, seen):
+    class U(ast.NodeTransformer):
+      def visit_Name(self, n):
+        if isinstance(n.ctx, ast.Load) and n.id in defs and \
+                n.id not in stop and n.id not in seen and depth < 8:
+          val, st = defs[n.id]
+          # only values defined before their own use (no self reference)
+          sub = unfold(copy.deepcopy(val), body, st, tuple(stop) + (n.id,))
+          return ast.copy_location(sub, n)
+        return n
+    return U().visit(e)
+  return go(copy.deepcopy(expr), 0, set())
